@@ -220,6 +220,30 @@ def run_history(stack, tests, with_run_ops):
             problems.extend(check_tbtr(target, reported, tagger_tags, with_run_ops))
         else:
             problems.extend(check_target(tflavour, target, reported, tagger_tags, with_run_ops))
+    if with_run_ops and reported and not problems and any(t[0] == "tbtr" for t in targets):
+        # the same objects used for a second run, in which nobody supplies a time: the callback's
+        # start/stop times are then the clock's, not the last time() of the first run
+        import datetime
+
+        utc = datetime.timezone.utc
+        sink = [t[1] for t in targets if t[0] == "tbtr"][0]
+        before = datetime.datetime.now(utc)
+        try:
+            top.startTestRun()
+            t = make_test("placeholder", 99)
+            top.startTest(t)
+            top.addSuccess(t)
+            top.stopTest(t)
+            top.stopTestRun()
+        except Exception as e:
+            problems.append(("call-raised", "second run: %s: %s" % (type(e).__name__, str(e)[:120])))
+            return problems
+        after = datetime.datetime.now(utc)
+        call = sink.calls[-1] if len(sink.calls) == len(reported) + 1 else None
+        if call is None or call["test"] is not t:
+            problems.append(("tbtr", "second run: %d callbacks after %d + 1 tests" % (len(sink.calls), len(reported))))
+        elif not (before <= call["start_time"] <= call["stop_time"] <= after):
+            problems.append(("tbtr-times", "second run without time(): callback times %r..%r, the test ran between %r and %r" % (call["start_time"], call["stop_time"], before, after)))
     return problems
 
 
